@@ -772,6 +772,7 @@ func (m *mappedFile) newCounter(name string) (v *atomic.Uint64, m1 *mappedFile, 
 			// indicates that the underlying file was somehow truncated, or the
 			// recorded limit is corrupt.
 			debugFatalf("corrupt: limit %d exceeds file size %d", limit, datalen)
+			newM.close() // (it is neither m nor returned: nobody else would)
 			return nil, nil, errCorrupt
 		}
 		// If m != orig, this is at least the second time around the loop
